@@ -901,12 +901,28 @@ pub fn run_c10(ctx: &mut Ctx) -> Result<(), String> {
         let out = run_exec(&cfg, &mut rng);
         // C10-specific oracle
         let mut fs: Vec<Finding> = Vec::new();
-        let tail_from = cfg.duration - Duration::from_secs(7);
+        // consecutive Byzantine leaders in the rotation each cost a window of timeouts (about 2.6 virtual seconds):
+        // with two or more in a row the tail is lengthened accordingly and progress, not a rate, is demanded
+        let max_run = {
+            let (mut best, mut cur) = (0u32, 0u32);
+            for w in 0..2 * cfg.ep.n() {
+                if cfg.byz.contains(&(w % cfg.ep.n())) {
+                    cur += 1;
+                    best = best.max(cur);
+                } else {
+                    cur = 0;
+                }
+            }
+            best
+        };
+        let tail = Duration::from_secs(7) + Duration::from_millis(2600) * max_run.saturating_sub(1);
+        let need = if max_run >= 2 { 1 } else { 4 };
+        let tail_from = cfg.duration.saturating_sub(tail);
         for &v in &out.correct {
             let at_tail_start = out.samples.iter().filter(|(t, _)| *t >= tail_from).filter_map(|(_, m)| m.get(&v)).next().copied().unwrap_or(0);
             let at_end = out.samples.last().and_then(|(_, m)| m.get(&v)).copied().unwrap_or(0);
-            if at_end < at_tail_start + 4 {
-                fs.push(Finding { prop: "C10", sig: "a correct node stopped finalizing after the hostile phase".into(), detail: format!("node {v}: finalized slot {at_tail_start} -> {at_end} in the last 7 virtual seconds") });
+            if at_end < at_tail_start + need {
+                fs.push(Finding { prop: "C10", sig: "a correct node stopped finalizing after the hostile phase".into(), detail: format!("node {v}: finalized slot {at_tail_start} -> {at_end} in the last {} virtual milliseconds ({max_run} consecutive Byzantine leaders in the rotation)", tail.as_millis()) });
             }
         }
         if out.probe == Some(false) {
